@@ -86,7 +86,7 @@ type isoState struct {
 
 // once the worker has allocated more than this since it started (with at least one large block among it), it
 // checkpoints and exits; the parent starts a fresh one
-const isoRecycleAbove = 1536 << 20
+const isoRecycleAbove = 12 << 30
 
 func newIsoResult() IsoResult {
 	return IsoResult{Sigs: map[string]bool{}, Viol: map[string]*IsoViol{}, Counters: map[string]int64{}}
@@ -278,10 +278,10 @@ func IsoChildMain(cfg IsoConfig) {
 		// start a fresh worker when the pile reaches a fixed size. Both thresholds are far below
 		// the address-space limit, so whether a given allocation succeeds does not depend on history.
 		switch {
-		case bigBytes == 0 && cum > 64<<20:
-			runtime.GC()
+		case bigBytes == 0 && cum > 4<<20:
+			runtime.GC() // small garbage: collect often so that the same (resident) pages are re-used
 			cum = 0
-		case bigBytes > 0 && (cum > isoRecycleAbove || cum-bigBytes > 128<<20):
+		case bigBytes > 0 && (cum > isoRecycleAbove || cum-bigBytes > 16<<20):
 			expensive = true
 		}
 		if since%256 == 0 || expensive {
